@@ -60,9 +60,6 @@ Proof.
 Qed.
 
 (* ------------------------------------------------------------------ RFC 1123 round trip *)
-Definition year_ok (pad : bool) (t : Z) : Prop :=
-  if pad then (min_t <= t <= max_t)%Z else (ordinal 1000 1 1 * 86400 <= t <= max_t)%Z.
-
 Lemma year_ok_year pad t : year_ok pad t -> year_range pad (year_of (ord_of t)).
 Proof.
   unfold year_ok, year_range, ord_of, min_t, max_t. destruct pad; intro H.
@@ -205,21 +202,6 @@ Proof.
   - intros [= <-]. exists 0%nat. split; [lia|assumption].
 Qed.
 
-(* what one converted field is, case by case *)
-Definition field_converted (zn : string) (z : zone) (v v' : jv) : Prop :=
-  match v with
-  | JStr s =>
-      match parse_rfc1123 s with
-      | Some u => exists a, v' = JDate a /\ instant a = u /\ a_off a = z u /\ a_zone a = zn
-      | None => v' = v
-      end
-  | JSeries ts =>
-      exists l, v' = JSeriesP l /\ List.length l = List.length ts /\
-                forall i, (i < List.length ts)%nat ->
-                  exists a, nth_error l i = Some a /\ parse_http_date zn z (nth i ts "") = Ok a
-  | _ => v' = v
-  end.
-
 Lemma conv_field_spec zn z v v' : conv_field zn z v = Ok v' -> field_converted zn z v v'.
 Proof.
   destruct v as [s|k|ts|a|l]; simpl; try (now intros [= <-]).
@@ -250,10 +232,6 @@ Proof.
 Qed.
 
 (* ------------------------------------------------------------------ pagination *)
-Definition convertible (tz : tzdb) (d : doc) : Prop := exists d', parse_dates tz d = Ok d'.
-Definition converted (tz : tzdb) (d : doc) : doc :=
-  match parse_dates tz d with Ok d' => d' | Err _ => d end.
-
 Lemma yield_items_ok tz items : Forall (convertible tz) items ->
   yield_items tz items = (map (converted tz) items, None).
 Proof.
